@@ -90,14 +90,14 @@ CHECKS = {
   "design_ref": "DESIGN.md section 6 / C18",
  },
  "C01": {
-  "text": 'Lean theorems over ALL receiver runs (any datagrams with any field values, any interleaving of receive / resynchronise; window 2^k, k <= 19): C01_channel_ids_increase (on every channel the unwrapped sequence ids of successively delivered packets strictly increase; ghost unwrapping proved to track the window base: C01_base_tracks_adv), C01_at_most_once, C01_delivered_in_window, C01_data_flag_only_from_accepted_datagram, instrumented run = model run (C01_receiveT_erase, C01_runT_erase); sender side over all operation sequences: C05_ids_consecutive (ids assigned consecutively in submission order), C05_emit_order. Fragment exactness: C04; codec: C16. Tied to the code by two-endpoint hc correspondence (every frame byte-exact, every delivery) under drop / duplication / delay / reordering / bit flips, ids at the 2^20 / 2^32 wraps, windows 4..4096, header-threshold leads (127..129, 255..257 exactly), window-tail-first schedules; implementation-side oracle: per channel the deliveries are a duplicate-free byte-exact subsequence of the submissions.',
-  "note": "Partial: the composition 'sender ids in submission order + receiver ids increasing => deliveries in submission order' additionally needs that no stale datagram from a previous lap of the 20-bit id space is accepted (frame-window argument), which is not a theorem; it is covered by the correspondence runs. Trusted: harness/driver, simulated network.",
-  "technique": 'Lean 4 proofs over all receiver runs and all sender operation sequences (ghost unwrapped ids, erasure theorems) + differential correspondence of two-endpoint runs + subsequence oracle',
+  "text": "Lean theorems for the composed system (Props/C01Sys): the real model functions of the packet sender (enqueue / emit / acknowledge), the fragment slicer and the packet receiver (handle_datagram / receive), connected by a network that may deliver ANY emitted fragment datagram any number of times in any order (loss = never, duplication, reordering, unbounded delay) and hand the sender ANY earlier window base as an acknowledgement. For every run: C01_sys_in_order (per channel, the payloads delivered, in delivery order, are a sublist of the payloads submitted on that channel, in submission order), C01_sys_at_most_once, C01_sys_delivered_is_emitted (byte-exact, right channel, right packet), C01_sys_link (the invariant tying receiver ids to sender emission indices), C01_sys_projects (the system's sender / receiver components are runs of the component models, so all component theorems apply), window 2^k (k <= 19), any base id incl. next to the 2^20 wrap. The only network hypothesis is freshness (Fresh / AckFresh): no datagram or acknowledgement older than about 2^20 packet ids is delivered (in the real system the 32-bit frame window enforces this; without acknowledgements no hypothesis is needed: C01_sys_fresh_automatic_noack). Component theorems: C01_channel_ids_increase etc. over all receiver runs incl. resynchronise, C05 (sender), C04 (fragments), C16 (codec). Tied to the code by two-endpoint hc correspondence (every frame byte-exact, every delivery) under drop / duplication / delay / reordering / bit flips, ids at the 2^20 / 2^32 wraps, windows 4..4096, header-threshold leads, window-tail-first schedules; implementation-side oracle: per channel the deliveries are a duplicate-free byte-exact subsequence of the submissions.",
+  "note": 'Residual: the freshness hypothesis is not derived from a model of the frame layer (frames older than the newest one seen are discarded, at most 4096 frames outstanding): that step is covered by the correspondence runs only; resynchronise is part of the receiver theorems but not of the composed system. Trusted: Lean kernel (propext, Classical.choice, Quot.sound), extract_consts.py, harness/driver, simulated network.',
+  "technique": 'Lean 4 proof of the composed sender / network / receiver system (invariant over all runs) + component theorems + differential correspondence of two-endpoint runs + subsequence oracle',
   "design_ref": "DESIGN.md section 6 / C01 and section 12",
  },
  "C02": {
-  "text": "Lean theorems: sender (all operation sequences): C02_leads_correct / C02_leads_exact (every emitted packet's channel / window parent lead is 0 exactly when no Reliable packet of the channel / of any channel is still in the window, otherwise the exact distance to the most recent one; the 16-bit truncation never bites for windows <= 65536), C02_emitted_channel_lt; receiver (all runs): C02_no_overtake (a packet with channel parent lead k is delivered only after a packet at or beyond the parent position was taken from that channel, or when the window base had already passed the parent), C02_window_advance_justified (the base only passes ids that a received packet's window parent lead vouches for), witnesses that a peer lying about leads / a resynchronise can make the receiver overtake (C02_overtake_witness_*). Liveness (eventual delivery) is checked on fault-prefix / fair-suffix schedules: every Reliable packet delivered exactly once at quiescence, nothing pending, send_buffer_size 0 after a sync round. Found (with C06) and repaired F2.",
-  "note": "Partial: eventual delivery is not a theorem (needs fairness + rate dynamics); the safety composition needs 'leads are those of one honest sender history', proved on the sender side but not composed through the network model. Trusted: harness/driver, simulated network.",
+  "text": "Lean theorems: sender (all operation sequences): C02_leads_correct / C02_leads_exact (every emitted packet's channel / window parent lead is 0 exactly when no Reliable packet of the channel / of any channel is still in the window, otherwise the exact distance to the most recent one; the 16-bit truncation never bites for windows <= 65536), C02_emitted_channel_lt; receiver (all runs): C02_no_overtake (a packet with channel parent lead k is delivered only after a packet at or beyond the parent position was taken from that channel, or when the window base had already passed the parent), C02_window_advance_justified (the base only passes ids that a received packet's window parent lead vouches for), witnesses that a peer lying about leads / a resynchronise can make the receiver overtake (C02_overtake_witness_*). Composed system (Props/C01Sys): C02_sys_no_skip (when a later packet of a channel is delivered, every earlier Reliable packet of that channel was delivered before it or the receive window base had already passed it) and C02_sys_window_waits_for_reliable (the base passes a Reliable packet only after it was completely received): with an honest sender the hostile-lead witnesses cannot occur. Liveness (eventual delivery) is checked on fault-prefix / fair-suffix schedules: every Reliable packet delivered exactly once at quiescence, nothing pending, send_buffer_size 0 after a sync round. Found (with C06) and repaired F2.",
+  "note": "Partial: eventual delivery is not a theorem (needs fairness + rate dynamics); one link of the composed safety argument is missing (a completely received Reliable packet is taken by receive() before the base passes it: completeness of the delivery pass). Trusted: harness/driver, simulated network.",
   "technique": 'Lean 4 proofs (sender leads exact, receiver no-overtake, witnesses for hostile leads) + differential correspondence + ordering/quiescence oracle',
   "design_ref": "DESIGN.md section 6 / C02 and section 12",
  },
